@@ -942,7 +942,7 @@ func vdesc(v ssa.Value) string {
 func returnsOf(f *ssa.Function) []*ssa.Return {
 	var out []*ssa.Return
 	for _, b := range f.Blocks {
-		if len(b.Instrs) == 0 {
+		if len(b.Instrs) == 0 || b == f.Recover {
 			continue
 		}
 		if r, ok := b.Instrs[len(b.Instrs)-1].(*ssa.Return); ok {
